@@ -36,6 +36,10 @@ pub struct SpendSpec {
     pub parent_seed: u64,
     pub amount: u64,
     pub conds: Vec<CondSpec>,
+    /// false: puzzle is the atom `1` and the solution is the condition list;
+    /// true: puzzle is `(q . conditions)` and the solution is nil
+    #[serde(default)]
+    pub quoted: bool,
 }
 
 #[derive(Serialize, Deserialize, Clone, Debug, PartialEq)]
@@ -98,7 +102,7 @@ fn vocab() -> &'static Vocab {
     V.get_or_init(|| {
         let phs = (0..4u8).map(|i| sha(&[b"ph", &[i]])).collect();
         let mut blobs = vec![];
-        for (i, len) in [3usize, 40, 120, 300].iter().enumerate() {
+        for (i, len) in [3usize, 40, 120, 300, 1100, 5000].iter().enumerate() {
             let mut b = vec![];
             let mut x = sha(&[b"blob", &[i as u8]]);
             while b.len() < *len {
@@ -152,9 +156,16 @@ fn build_bundle(b: &BundleSpec) -> SpendBundle {
     let mut spends = vec![];
     for (i, sp) in b.spends.iter().enumerate() {
         let parent = sha(&[b"parent", &sp.parent_seed.to_le_bytes()]);
-        let coin = Coin::new(Bytes32::new(parent), Bytes32::new(v.puzzle_hash_of_1), sp.amount);
-        let mut puzzle: Vec<u8> = vec![1];
-        let mut solution = solution_bytes(sp);
+        let (mut puzzle, mut solution, ph): (Vec<u8>, Vec<u8>, [u8; 32]) = if sp.quoted {
+            // (q . conditions): ff 01 <conditions>
+            let mut p = vec![0xff, 0x01];
+            p.extend_from_slice(&solution_bytes(sp));
+            let ph = clvm_utils::tree_hash_from_bytes(&p).map(|h| h.to_bytes()).unwrap_or([0u8; 32]);
+            (p, vec![0x80], ph)
+        } else {
+            (vec![1], solution_bytes(sp), v.puzzle_hash_of_1)
+        };
+        let coin = Coin::new(Bytes32::new(parent), Bytes32::new(ph), sp.amount);
         match &b.corrupt {
             Corrupt::Truncate { spend, solution: s, keep } if *spend as usize == i => {
                 let t = if *s { &mut solution } else { &mut puzzle };
@@ -644,17 +655,21 @@ impl Engine for C10 {
                 ops.push(Op::ReadCost);
                 continue;
             }
-            let nb = match rng.below(6) {
-                0..=3 => 1,
-                4 => 2,
-                _ => 3,
+            let nb = match rng.below(60) {
+                0 => 0, // an empty batch
+                1..=40 => 1,
+                41..=50 => 2,
+                51..=58 => 3,
+                _ => rng.range(4, 8) as usize,
             };
             let mut bundles = vec![];
             for _ in 0..nb {
-                let ns = match rng.below(6) {
-                    0..=3 => 1,
-                    4 => 2,
-                    _ => 3,
+                let ns = match rng.below(60) {
+                    0 => 0, // a bundle without coin spends
+                    1..=40 => 1,
+                    41..=50 => 2,
+                    51..=58 => 3,
+                    _ => rng.range(4, 6) as usize,
                 };
                 let mut spends = vec![];
                 for _ in 0..ns {
@@ -675,12 +690,30 @@ impl Engine for C10 {
                                 conds.push(CondSpec::CreateCoin { ph, amount });
                             }
                         } else {
-                            conds.push(CondSpec::Remark { blob: rng.below(4) as u8 });
+                            conds.push(CondSpec::Remark { blob: if rng.chance(1, 12) { 4 + rng.below(2) as u8 } else { rng.below(4) as u8 } });
                         }
                     }
-                    spends.push(SpendSpec { parent_seed: parent_counter, amount: 10 + rng.below(3), conds });
+                    let amount = match rng.below(12) {
+                        0 => 0,
+                        1 => *rng.pick(&[0x7fu64, 0x80, 0x7fff, 0x8000, 0x7fff_ffff_ffff_ffff, 0x8000_0000_0000_0000, u64::MAX]),
+                        _ => 10 + rng.below(3),
+                    };
+                    if amount < 10 {
+                        for c in conds.iter_mut() {
+                            if let CondSpec::CreateCoin { amount, .. } = c {
+                                *amount = 0;
+                            }
+                        }
+                        // two zero-amount coins with the same puzzle hash would be duplicates
+                        let mut seen = std::collections::BTreeSet::new();
+                        conds.retain(|c| match c {
+                            CondSpec::CreateCoin { ph, .. } => seen.insert(*ph),
+                            CondSpec::Remark { .. } => true,
+                        });
+                    }
+                    spends.push(SpendSpec { parent_seed: parent_counter, amount, conds, quoted: rng.chance(1, 4) });
                 }
-                let corrupt = if rng.below(100) < fault_pct / 2 {
+                let corrupt = if !spends.is_empty() && rng.below(100) < fault_pct / 2 {
                     let spend = rng.usize_below(spends.len()) as u8;
                     if rng.chance(1, 2) {
                         Corrupt::Truncate { spend, solution: rng.chance(3, 4), keep: rng.below(12) as u16 }
@@ -698,7 +731,7 @@ impl Engine for C10 {
                     1 => CostSpec::Land { delta: 1 },
                     2 => CostSpec::Land { delta: -(cost_per_byte as i64) },
                     3 => CostSpec::Land { delta: cost_per_byte as i64 },
-                    4 => CostSpec::Fixed(rng.below(max_cost + max_cost / 4)),
+                    4 => CostSpec::Fixed(if rng.chance(1, 4) { 0 } else { rng.below(max_cost + max_cost / 4) }),
                     _ => CostSpec::Land { delta: -1 },
                 }
             } else {
